@@ -50,8 +50,18 @@ for d in dirs:
     rows.append((sid, "caught" if res[prop]["caught"] else "MISSED (exit %d)" % res[prop]["exit"], ", ".join(res[prop]["signatures"][:3])))
     print(rows[-1], flush=True)
 subprocess.run(["rm", "-rf", V + "/replays"])
-if not args:
-    with open(V + "/seeded/MATRIX.md", "w") as f:
-        f.write("| seeded change | own property's quick check | first signatures |\n|---|---|---|\n")
-        for r in rows:
-            f.write("| %s | %s | %s |\n" % r)
+# MATRIX.md is always rebuilt from every meta.json (so a partial run refreshes only its rows)
+allrows = []
+for d in sorted(glob.glob(V + "/seeded/*/meta.json")):
+    m = json.load(open(d))
+    prop = m.get("property")
+    if not m.get("applies_to_current_head", True):
+        allrows.append((m["id"], "DOES NOT APPLY", "")); continue
+    c = (m.get("checks") or {}).get(prop)
+    if not c:
+        continue
+    allrows.append((m["id"], "caught" if c["caught"] else "MISSED (exit %d)" % c["exit"], ", ".join(c["signatures"][:3])))
+with open(V + "/seeded/MATRIX.md", "w") as f:
+    f.write("| seeded change | own property's quick check | first signatures |\n|---|---|---|\n")
+    for r in allrows:
+        f.write("| %s | %s | %s |\n" % r)
